@@ -1,7 +1,7 @@
 """T00 -- engine self-test: tiny functions with contracts that must verify (ok_*) or be refuted (bad_*).
 Not a property of the repository; run by pyvc.selftest to validate the verifier itself."""
-from pyvc.api import Module, Int, Nat, Bool, Str, Opt, ListOf, FixedList, OneOf, Inst
-from contracts.common import implies, iff, forall_range, exists_range
+from pyvc.api import Module, Int, Nat, Bool, Str, Opt, ListOf, FixedList, OneOf, Inst, MapOf
+from contracts.common import implies, iff, forall_range, exists_range, prefix_fold
 
 M = Module('T00')
 P = 'contracts.T00_engine'
@@ -147,6 +147,54 @@ M.contract(P + ':ok_floor_div', params=dict(a=Int, b=Int),
                     'sign-of-remainder': lambda b, result: (0 <= result[1] < b) if b > 0 else (b < result[1] <= 0)},
            raises_only=())
 
+
+# ---- symbolic maps (dict view), frame/havoc of mutable arguments, ghost history function
+
+def ok_map_ops(d, k, v):
+    """dict operations on a map of unbounded contents"""
+    had = k in d
+    before = d.get(k, '')
+    d[k] = v
+    e = dict(d)
+    removed = e.pop(k)
+    if 'x' in e:
+        del e['x']
+    return had, before, removed, e
+
+
+M.contract(P + ':ok_map_ops', params=dict(d=MapOf(Str, Str), k=Str, v=Str), ghosts=dict(q=Str), modifies=('d',),
+           old=lambda d: dict(d),
+           ensures={'d updated at k only': lambda d, k, v, q, old:
+           d[k] == v and iff(q in d, q == k or q in old) and (q == k or q not in old or d[q] == old[q]),
+                    'results': lambda k, v, result, old:
+                    iff(result[0], k in old) and result[1] == (old[k] if k in old else '') and result[2] == v,
+                    'copy is independent': lambda d, k, q, result: k not in result[3] and k in d and 'x' not in result[3]
+                                                                   and iff(q in result[3], q in d and q != k and q != 'x')},
+           raises_only=())
+
+
+def ok_put_all(d, ks):
+    for k in ks:
+        _put(d, k)
+
+
+def _put(d, k):
+    d[k] = k + '!'
+
+
+def _put_step(d, k):
+    r = dict(d)
+    r[k] = k + '!'
+    return r
+
+
+M.contract(P + ':_put', params=dict(d=MapOf(Str, Str), k=Str), modifies=('d',), old=lambda d: dict(d),
+           ensures={'put': lambda d, k, old: d == _put_step(old, k)}, raises_only=())
+M.contract(P + ':ok_put_all', params=dict(d=MapOf(Str, Str), ks=ListOf(Str)), modifies=('d',), old=lambda d: dict(d),
+           ensures={'fold': lambda d, ks, old: d == prefix_fold(_put_step, old, ks, len(ks))}, raises_only=())
+M.loop(P + ':ok_put_all', 0, invariant=lambda _i, d, ks, old: d == prefix_fold(_put_step, old, ks, _i),
+       modifies=dict(k='local', d='in-place'))
+
 EXPECTED_REFUTED = {
     P + ':bad_first_line : ensures[prefix-without-newline]',
     P + ':bad_sum_to : loop#0 invariant[preserved]',
@@ -289,3 +337,78 @@ M.contract(P + ':ok_build_argv', params=dict(interpreter_args=ListOf(Str), sourc
                     'inputs-unchanged': lambda interpreter_args, args, old: (len(interpreter_args), len(args)) == old},
            old=lambda interpreter_args, args: (len(interpreter_args), len(args)),
            raises_only=())
+
+
+# ---- mutable lists of records with optional fields (MListOf(Inst(...))) and of elements of a sequence of
+# interface objects (MListOf(RefTo(...)))
+
+class _Rec:
+    def __init__(self, a, b):
+        self.a = a
+        self.b = b
+
+
+def ok_collect_records(xs):
+    out = []
+    for x in xs:
+        out.append(_Rec(x, None if x < 0 else x + 1))
+    return out
+
+
+from pyvc.api import Inst, Opt, RefTo, Interface, Iface  # noqa: E402
+
+_REC = Inst(_Rec, a=Int, b=Opt(Int))
+
+
+def _rec_ok(r, x):
+    return r.a == x and (r.b is None) == (x < 0)
+
+
+M.contract(P + ':ok_collect_records', params=dict(xs=ListOf(Int)), returns=MListOf(_REC),
+           ensures={'one-record-per-item': lambda xs, result: len(result) == len(xs) and forall_range(
+               0, len(xs), lambda k: _rec_ok(result[k], xs[k]))},
+           raises_only=())
+M.loop(P + ':ok_collect_records', 0,
+       invariant=lambda _i, xs, out: len(out) == _i and forall_range(0, _i, lambda k: _rec_ok(out[k], xs[k])),
+       modifies=dict(out=MListOf(_REC), x='local'))
+
+
+def bad_collect_records(xs):
+    out = []
+    for x in xs:
+        out.append(_Rec(x, None if x <= 0 else x + 1))
+    return out
+
+
+M.contract(P + ':bad_collect_records', params=dict(xs=ListOf(Int)), returns=MListOf(_REC),
+           ensures={'one-record-per-item': lambda xs, result: len(result) == len(xs) and forall_range(
+               0, len(xs), lambda k: _rec_ok(result[k], xs[k]))},
+           raises_only=())
+M.loop(P + ':bad_collect_records', 0,
+       invariant=lambda _i, xs, out: len(out) == _i and forall_range(0, _i, lambda k: _rec_ok(out[k], xs[k])),
+       modifies=dict(out=MListOf(_REC), x='local'))
+
+EXPECTED_REFUTED.add(P + ':bad_collect_records : loop#0 invariant[preserved]')
+
+
+class _ItemI(Interface):
+    attrs = {'weight': Int}
+
+
+def ok_heavy_items(items):
+    out = []
+    for it in items:
+        if it.weight > 10:
+            out.append(it)
+    return out
+
+
+_ITEM_REF = RefTo(_ItemI, 'items[]')
+
+M.contract(P + ':ok_heavy_items', params=dict(items=ListOf(Iface(_ItemI))), returns=MListOf(_ITEM_REF),
+           ensures={'only-heavy': lambda result: forall_range(0, len(result), lambda k: result[k].weight > 10),
+                    'not-longer': lambda items, result: len(result) <= len(items)},
+           raises_only=())
+M.loop(P + ':ok_heavy_items', 0,
+       invariant=lambda _i, out: len(out) <= _i and forall_range(0, len(out), lambda k: out[k].weight > 10),
+       modifies=dict(out=MListOf(_ITEM_REF), it='local'))
